@@ -44,6 +44,12 @@ structure Params where
   /-- `tagged_hash(tag, m, hf)` -/
   TH : Bytes → Bytes → Bytes
 
+/-- the sizes btclib derives from a curve (`CurveGroup.p_size = ceil(p.bit_length()/8)`, `Curve.nlen`,
+    `Curve.n_size`) with a hash of digest size `hfLen`: what the driver runs every op line with -/
+def Params.ofCurve (c : EC.Curve) (hfLen : Nat) (TH : Bytes → Bytes → Bytes) : Params :=
+  let nlen := Py.natBitLength c.n.toNat
+  { pSize := (Py.natBitLength c.p.toNat + 7) / 8, nSize := (nlen + 7) / 8, nlen := nlen, hfLen := hfLen, TH := TH }
+
 /-- `ssa.Sig` (the curve is the ambient `o`) -/
 structure Sig where
   r : Int
@@ -119,12 +125,14 @@ def signCore (c q k r : Int) : Except Err Sig :=
     | .error e => .error e
     | .ok _ => .ok sg
 
-/-- `_assert_as_valid_`: `K = (n−c)•Q + s•G`; fail if infinite, if odd y, if `x(K) ≠ r` -/
+/-- `_assert_as_valid_`: `K = (n−c)•Q + s•G`; fail if infinite, if odd y, if `x(K) ≠ r mod p`
+    (`KJ[0] != KJ[2]*KJ[2]*r % ec.p`: the private function reads `r` modulo `p`; every public caller has
+    put `r` through `Sig.assert_valid`, i.e. `0 ≤ r < p`, first) -/
 def assertCore (c : Int) (Q : α) (r s : Int) : Except Err Unit :=
   let K := o.dmul (o.n - c) Q s o.gen
   if o.isZero K then .error .value
   else if o.hasEvenY K = false then .error .runtime
-  else if o.x K ≠ r then .error .runtime
+  else if o.x K ≠ r % o.p then .error .runtime
   else .ok ()
 
 /-- `assert_as_valid_` (Python arm, no commitment) -/
